@@ -13,3 +13,5 @@ def check(ctx: Ctx) -> None:
     # TaskGroupAlreadyExists is decided by membership in the group table: a name leaves the table only by cancelling the group
     from .c07 import r_group_table_who
     r_group_table_who(ctx, "R09.6")
+    # "a function that is not a coroutine function is rejected": by asyncio's notion of a coroutine function, the one the documentation names
+    A.r_external_predicates(ctx, "R09.7")
